@@ -125,9 +125,11 @@ MANIFEST = dict(
               "rule lists regenerated from the source; payload verbatim) + byte-level correspondence of dumps() and loads() with the "
               "real classes on generated histories",
     text="C03_json_closed: every mapping reachable from the empty manifest by any history of add calls (accepted or refused, any "
-         "JSON-like arguments, tuples as rpms) is JSON-representable with unique string keys; C03_roundtrip: for every such history, "
-         "every kind and every valid compose section, dumps -> loads -> dumps succeeds, the re-read mapping is the key-sorted original "
-         "(Python-equal), the compose section is the original up to the documented `final` normalisation and the second text is "
-         "byte-identical.",
+         "JSON-like arguments, tuples as rpms) is JSON-representable with distinct string keys; C03_roundtrip: for every such history, "
+         "every kind and every compose section that validates, dumps -> loads -> dumps succeeds, the re-read mapping is the key-sorted "
+         "original (Python-equal; C03_pointwise: every chain of lookups reads the same value), the compose section is the original up to "
+         "the documented `final` normalisation (whose validity is derived from the generated rule list: C03_final_only_with_label), the "
+         "header carries the current version (C03_version_gates, read from the generated VERSION and gates) and the second text is "
+         "byte-identical; C03_bytes: the same at text level for any parser that inverts the printer on that document.",
     note="The JSON parser is not modelled (assumption: it inverts the printer up to dict order), the printer is (JsonText.dumps).",
     ref="7/C03")
